@@ -605,6 +605,18 @@ structure Heap where
 
 def Heap.lookup (h : Heap) (d : Nat) (k : String) : Option Val := (h.dicts d).lookup k
 
+/-- `obj` lives in `h`: its buffer, its dict and the mutable values its dict refers to have been allocated -/
+def Heap.Live (h : Heap) (obj : PyObj) : Prop :=
+  obj.buf < h.nextBuf ∧ obj.dict < h.nextDict ∧ ∀ k id, (k, Val.ref id) ∈ h.dicts obj.dict → id < h.nextVal
+
+/-- `v` (in heap `h`) and `v'` (in heap `h'`) are equal as Python values: the same atom, or mutable objects with
+    equal content -/
+def sameValue (h : Heap) (v : Val) (h' : Heap) (v' : Val) : Prop :=
+  match v, v' with
+  | .ref a, .ref b => h'.vals b = h.vals a
+  | .ref _, _ => False
+  | a, b => b = a
+
 /-- `d[k] = v` -/
 def Heap.setKey (h : Heap) (d : Nat) (k : String) (v : Val) : Heap :=
   { h with dicts := fun i => if i = d then (k, v) :: (h.dicts d).filter (fun e => e.1 != k) else h.dicts i }
